@@ -140,6 +140,20 @@ func init() {
 		fr.i.ps.Observes = append(fr.i.ps.Observes, strArg(a[0])+"="+txt)
 		return nil
 	})
+	// shared-state monitor (C18, second clause)
+	reg("vxSharedWatch", func(fr *frame, a []value) value {
+		fr.i.sharedWatch()
+		return nil
+	})
+	reg("vxSharedWrites", func(fr *frame, a []value) value {
+		if fr.i.sharedMon == nil {
+			return 0
+		}
+		for _, v := range fr.i.sharedMon.writes {
+			fr.i.ps.Observes = append(fr.i.ps.Observes, "shared-state: "+v)
+		}
+		return len(fr.i.sharedMon.writes)
+	})
 	// lock monitor (C18)
 	reg("vxLockWatch", func(fr *frame, a []value) value {
 		fr.i.lockWatch(a[0], a[1])
